@@ -529,13 +529,14 @@ class Facts:
     path.  Assignments kill everything mentioning the assigned root name; assignments of
     a constant to a plain name are remembered."""
 
-    def __init__(self, d=None, clauses=None, defs=None):
+    def __init__(self, d=None, clauses=None, defs=None, cons=None):
         self.d: Dict[str, bool] = d or {}
         self.clauses: List[frozenset] = clauses or []
         self.defs: Dict[str, ast.AST] = defs or {}      # flag variable -> defining boolean expression
+        self.cons: List[Tuple[str, ast.AST, bool]] = cons or []   # compound conditions known (text, expr, truth): decided by truth table
 
     def copy(self):
-        return Facts(dict(self.d), list(self.clauses), dict(self.defs))
+        return Facts(dict(self.d), list(self.clauses), dict(self.defs), list(self.cons))
 
     def meet(self, o: 'Facts') -> 'Facts':
         d = {k: v for k, v in self.d.items() if o.d.get(k) is v}
@@ -549,15 +550,106 @@ class Facts:
             if c not in cl and any(o.d.get(a) is t for (a, t) in c):
                 cl.append(c)
         df = {k: v for k, v in self.defs.items() if k in o.defs and unparse(o.defs[k]) == unparse(v)}
-        return Facts(d, cl, df)
+        ok = {(t, tr) for (t, _e, tr) in o.cons}
+        cs = [c for c in self.cons if (c[0], c[2]) in ok]
+        return Facts(d, cl, df, cs)
 
     def same(self, o: 'Facts') -> bool:
-        return self.d == o.d and set(self.clauses) == set(o.clauses) and set(self.defs) == set(o.defs)
+        return self.d == o.d and set(self.clauses) == set(o.clauses) and set(self.defs) == set(o.defs) and \
+            {(t, tr) for (t, _e, tr) in self.cons} == {(t, tr) for (t, _e, tr) in o.cons}
 
     def known(self, expr) -> Optional[bool]:
         if isinstance(expr, str):
             expr = ast.parse(expr, mode='eval').body
-        return self._eval(expr)
+        v = self._eval(expr)
+        if v is None and (self.cons or self.clauses):
+            v = self._tt(expr)
+        return v
+
+    # ---- truth-table decision over the atoms of the compound conditions (finite, no solver)
+    @staticmethod
+    def _atoms(e, out):
+        while isinstance(e, ast.UnaryOp) and isinstance(e.op, ast.Not):
+            e = e.operand
+        if isinstance(e, ast.BoolOp):
+            for v in e.values:
+                Facts._atoms(v, out)
+        elif isinstance(e, ast.Compare) and len(e.ops) > 1:
+            left = e.left
+            for op, right in zip(e.ops, e.comparators):
+                out.add(literal(ast.Compare(left=left, ops=[op], comparators=[right]))[0])
+                left = right
+        elif not isinstance(e, ast.Constant):
+            out.add(literal(e)[0])
+
+    @staticmethod
+    def _ev(e, asg) -> bool:
+        if isinstance(e, ast.UnaryOp) and isinstance(e.op, ast.Not):
+            return not Facts._ev(e.operand, asg)
+        if isinstance(e, ast.BoolOp):
+            if isinstance(e.op, ast.And):
+                return all(Facts._ev(v, asg) for v in e.values)
+            return any(Facts._ev(v, asg) for v in e.values)
+        if isinstance(e, ast.Constant):
+            return bool(e.value)
+        if isinstance(e, ast.Compare) and len(e.ops) > 1:
+            left = e.left
+            for op, right in zip(e.ops, e.comparators):
+                a, pol = literal(ast.Compare(left=left, ops=[op], comparators=[right]))
+                if asg[a] != pol:
+                    return False
+                left = right
+            return True
+        a, pol = literal(e)
+        return asg[a] == pol
+
+    def _tt(self, q, max_atoms=14) -> Optional[bool]:
+        atoms = set()
+        self._atoms(q, atoms)
+        rel = []
+        # constraints connected to the query through shared atoms
+        pool = [(e, tr) for (_t, e, tr) in self.cons]
+        clause_atoms = [({a for (a, _p) in c}, c) for c in self.clauses]
+        changed = True
+        used = set()
+        while changed:
+            changed = False
+            for i, (e, tr) in enumerate(pool):
+                if i in used:
+                    continue
+                a2 = set()
+                self._atoms(e, a2)
+                if a2 & atoms:
+                    atoms |= a2
+                    rel.append((e, tr))
+                    used.add(i)
+                    changed = True
+        cls = [c for (a2, c) in clause_atoms if a2 & atoms]
+        for c in cls:
+            atoms |= {a for (a, _p) in c}
+        free = sorted(a for a in atoms if a not in self.d)
+        if len(free) > max_atoms or (not rel and not cls):
+            return None
+        seen_true = seen_false = False
+        import itertools
+        for vals in itertools.product((True, False), repeat=len(free)):
+            asg = {a: self.d[a] for a in atoms if a in self.d}
+            asg.update(zip(free, vals))
+            if not all(self._ev(e, asg) == tr for (e, tr) in rel):
+                continue
+            if not all(any(asg[a] == p for (a, p) in c) for c in cls):
+                continue
+            if self._ev(q, asg):
+                seen_true = True
+            else:
+                seen_false = True
+            if seen_true and seen_false:
+                return None
+        if seen_true and not seen_false:
+            return True
+        if seen_false and not seen_true:
+            return False
+        return None          # no consistent assignment: the point is unreachable
 
     def _eval(self, e) -> Optional[bool]:
         if isinstance(e, ast.Constant):
@@ -613,6 +705,9 @@ class Facts:
         if isinstance(e, ast.BoolOp):
             if (isinstance(e.op, ast.And) and truth) or (isinstance(e.op, ast.Or) and not truth):
                 return all(self._add(v, truth) for v in e.values)
+            txt = unparse(e)
+            if not any(t == txt and tr == truth for (t, _e, tr) in self.cons):
+                self.cons.append((txt, e, truth))
             lits = []
             if _flatten(e, truth, None, lits):
                 return self._add_clause(lits)
@@ -674,6 +769,7 @@ class Facts:
         for k in [k for k in self.d if pat.search(k)]:
             del self.d[k]
         self.clauses = [c for c in self.clauses if not any(pat.search(a) for (a, _t) in c)]
+        self.cons = [c for c in self.cons if not pat.search(c[0])]
         for k in [k for k, v in self.defs.items() if k == root or pat.search(unparse(v))]:
             del self.defs[k]
 
